@@ -3,11 +3,14 @@ CONSTANTS
   Accounts = {"a", "b", "c"}
   Values = {0}
   Limits = {0}
+  Sizes = {1}
   MaxTs = 6
   Th = 3
   Price = 1
   MinStep = 1
   InitBal = 5
+  Rich = {"a", "b", "c"}
+  PoorBal = 0
   MaxN = 1
   MaxPool = 1
   MaxOps = 0
